@@ -23,8 +23,13 @@ LOG = []
 INTERNAL = ("_v_",)
 
 
+CELL_W = np.array([[0.1, 0.37, 0.51], [0.73, 0.2, 0.19], [0.43, 0.61, 0.3]])
+
+
 def cell_token(cell):
-    return float(np.round(np.linalg.det(np.asarray(cell)), 9))
+    # one number that tells two cells apart, volume-preserving changes included (the determinant alone does not see a shear)
+    cell = np.asarray(cell, dtype=float)
+    return float(np.round(np.linalg.det(cell) + np.sum(cell * CELL_W), 9))
 
 
 class Strict:
@@ -76,7 +81,13 @@ class UserMove(Strict):
             context._added_atoms += atoms[new]
             return True
         if act[0] == "cell" and hasattr(context, "last_cell"):
-            atoms.set_cell(atoms.cell.array * act[1], scale_atoms=True)
+            if act[1] == "shear":
+                # a change of shape at constant volume (seeded change C20-11, second version: the cell notification sent only when the volume changed)
+                cell = atoms.cell.array.copy()
+                cell[1] = cell[1] + 0.0625 * cell[0]
+                atoms.set_cell(cell, scale_atoms=True)
+            else:
+                atoms.set_cell(atoms.cell.array * act[1], scale_atoms=True)
             return [1]
         if act[0] == "shift":
             if len(atoms):          # (the shipped exchange move of the same table may have emptied the box)
